@@ -760,3 +760,25 @@ define void @plain_musttail(i32 %x) {
   musttail call void @plain_musttail(i32 %x)
   ret void
 }
+;;; ATOM inst/call-returning-function-pointer-short-form
+declare void ()* @getfp()
+declare i32 (i8*, ...)* @getvar(i32)
+declare void ()* ()* @getgetfp()
+
+define void @caller() personality i8* null {
+entry:
+  %0 = call void ()* @getfp()
+  call void %0()
+  %1 = call i32 (i8*, ...)* @getvar(i32 1)
+  %2 = call i32 (i8*, ...) %1(i8* null, i32 3)
+  %3 = call void ()* ()* @getgetfp()
+  %4 = call void ()* %3()
+  %5 = call void ()* @getfp()
+  %6 = invoke void ()* @getfp() to label %ok unwind label %lp
+ok:
+  call void %6()
+  ret void
+lp:
+  %7 = landingpad { i8*, i32 } cleanup
+  ret void
+}
